@@ -127,6 +127,7 @@ func (setup *SetupServerController) handlePairVerify(in util.Container) (util.Co
 
 	err := setup.session.SetupPrivateKeyFromClientPublicKey(clientPublicKey)
 	if err != nil {
+		setup.reset()
 		return nil, err
 	}
 
